@@ -79,6 +79,26 @@ def t1(F, res, only=None, rule="T1"):
                 res.add(e3.check_impl_method(F, f, st, fam, ms[f["name"]], rule, rows,
                                              method_sem="is_constant" if f["name"] == "is_constant" else None,
                                              family_traits=(APPLY, COMPOSITE, NODE)))
+    # T1 (same method): a substitution method hands each child on to the *same* substitution.  A child that flows into another
+    # method of the traversal trait only (`x.reduce()?` in the `List` arm of apply_fees) is visited, but not substituted.
+    if only is None:
+        SUBST = ("apply_args", "apply_inputs", "apply_fees")
+        for f in F.fns.values():
+            if f.get("impl_trait") != APPLY or f.get("name") not in SUBST or f["impl_self"] not in F.adts:
+                continue
+            fi = mir.inline_calls(F, f, want=e3._helper_policy(f["crate"]), depth=2)
+            flows, _ = e3.self_field_flows(fi, f["impl_self"])
+            bad = []
+            for (var, fld), fl in sorted(flows.items()):
+                ms = {t.get("method") for t in fl.get("terms", []) if (t.get("trait") or "") == APPLY and t.get("method")}
+                if ms and f["name"] not in ms and not fl.get("closure"):
+                    bad.append("%s.%s flows into %s only" % (var or f["impl_self"].split("::")[-1], fld, "/".join(sorted(ms))))
+            key = "%s|children are handed to the same substitution" % f["path"]
+            if bad:
+                res.add([finding(rule, key, where(f), "%s::%s: %s - the child is traversed by another method, so what `%s` substitutes is left in place there (the template stays open after every reported input was supplied)" % (
+                    f["impl_self"].split("::")[-1], f["name"], "; ".join(bad), f["name"]))])
+            else:
+                res.add([ok(rule, key, where(f), "every child that reaches a traversal method reaches %s" % f["name"])])
     res.count("traversal impl methods", n_impl)
     if only is not None:
         return n_impl
